@@ -16,7 +16,7 @@ import json, os, re, struct, sys
 import vlib
 from props import wirelib as W
 
-COQ_FILES = ["Hostile/Decode.v", "Hostile/Multi.v", "Hostile/Proofs.v", "Hostile/Props.v"]
+COQ_FILES = ["Hostile/Decode.v", "Hostile/Multi.v", "Hostile/Proofs.v", "Hostile/MultiProofs.v", "Hostile/Props.v"]
 KQ = b"SELECT * FROM data WHERE id = $1"
 PW_SENTINEL = b"md5" + b"0" * 32 + b"\0"
 HUGE = 64 * 1024 * 1024          # "huge" frames are capped at 64 MiB (pgcat really allocates and fills len bytes)
@@ -598,7 +598,7 @@ SITES = [
     ("src/messages.rs", r"if slice_end < slice_start", 1, "read_message guard"),
     ("src/messages.rs", r"&buf\[\.\.buf\.len\(\) - 1\]", 1, "cursor read_string"),
     ("src/messages.rs", r"4 \* parse\.num_params as usize", 1, "Parse re-encoding"),
-    ("src/messages.rs", r"c = bytes\.get_u8\(\);", 1, "parse_params inner loop"),
+    ("src/messages.rs", r"c = bytes\.get_u8\(\);", 2, "parse_params loops"),
     ("src/query_router.rs", r"cmp::min\(len - 5, self\.pool_settings\.regex_search_limit\)", 1, "comment routing segment"),
     ("src/query_router.rs", r"message_cursor\.read_string\(\)\.unwrap\(\)", 4, "try_execute_command + parse unwraps"),
     ("src/query_router.rs", r"_ => unreachable!\(\),\s*\}\)\s*\}", 1, "uniform format code"),
@@ -704,10 +704,10 @@ def special_scenarios(run, wire, quick):
              {"op": "send", "c": "a", "msgs": [{"raw": (Pm(b"", sql) + Bm() + Em() + Sm).hex()}]}, {"op": "recv", "c": "a", "until": "G", "timeout_ms": 3000},
              {"op": "send", "c": "a", "msgs": [{"raw": (dm(b"1\tx\n") + cm + Sm).hex()}]}, {"op": "half_close", "c": "a"},
              {"op": "recv", "c": "a", "until": "", "count": 0, "timeout_ms": 1200, "label": "hostile"}, {"op": "close", "c": "a"}]
-    r = W.run_scenario(wire, {"backends": [{"name": "b0"}], "toml": make_toml(v), "hex": False, "steps": steps + CANARY}, timeout=60)
+    r = W.run_scenario(wire, {"backends": [{"name": "b0"}], "toml": make_toml(v), "hex": False, "steps": steps + canary(800)}, timeout=60)
     c2 = dict(kind="post", variant="plain", state="idle", cat="known", label="extended_copy_copydone", hostile=b"", probe=False, id=-2)
     probs = monitors(r, c2)
-    hung = bool(probs) and not r.get("task_results")
+    hung = bool(probs) and "harness_error" not in r and len(r.get("task_results", [])) < 2
     # the model's prediction for exactly this stream: Blocked
     val = vlib.coq_eval("c11_f21c", PREAMBLE, ["observe %s (Idle c0) %s [ZG]" % (coq_opts(c2, True, [], []), vlib.coq_bytes(Pm(b"", sql) + Bm() + Em() + Sm + dm(b"1\tx\n") + cm + Sm))])[0]
     kl, sc, zs, nerr = vlib.parse_coq(val)
@@ -730,9 +730,9 @@ def special_scenarios(run, wire, quick):
         steps = [{"op": "connect", "c": "a", "params": {"user": "u", "database": "db"}, "password": "pw"},
                  {"op": "spawn", "task": "flood", "steps": [{"op": "send", "c": "a", "msgs": [{"raw": raw.hex()}]}]}, {"op": "join", "task": "flood", "timeout_ms": 30000},
                  {"op": "sleep", "ms": 1500}, {"op": "close", "c": "a"}, {"op": "sleep", "ms": 500}]
-        r = W.run_scenario(wire, {"backends": [{"name": "b0"}], "toml": make_toml(v), "hex": False, "steps": steps + CANARY}, timeout=180)
+        r = W.run_scenario(wire, {"backends": [{"name": "b0"}], "toml": make_toml(v), "hex": False, "steps": steps + canary(800)}, timeout=180)
         probs = monitors(r, c2)
-        hung = bool(probs) and "harness_error" not in r and not r.get("task_results")
+        hung = bool(probs) and "harness_error" not in r and len(r.get("task_results", [])) < 2
         out["F27"] = {"reproduced": hung, "monitors": probs[:2], "request_bytes": len(raw)}
         if hung:
             if "F27-pipeline-write-deadlock" in known:
@@ -818,7 +818,7 @@ def check(run):
     run.cov["rule"] = ("malformed-stream generator: %d body kinds (P/B/D/C/Q/E: empty, missing terminators, short/negative/oversized counts, bad format codes, bad UTF-8, len=4 for every tag), "
                        "frame damage (len in {-1,-2,MIN,0,1,3}, truncated header/body, length/content mismatch, 1 MiB and 64 MiB announced, unknown tags, noise), valid messages in invalid order; "
                        "applied at states %s + pre-startup / after-SSL-N / awaiting password (user, admin) / admin session; configs %s; with and without a trailing probe Query; TCP cuts. "
-                       "distinct = distinct (config, state, input, probe, build) tuples; transitions = distinct (state, category, model outcome)" % (sorted(post_states(VARIANTS["shardkey"])), sorted(VARIANTS)))
+                       "distinct = distinct (config, state, input, probe, build) tuples; transitions = distinct (state, category, model outcome)" % (len(malformed_bodies()), sorted(post_states(VARIANTS["shardkey"])), sorted(VARIANTS)))
     dist = {}
     for c in cases:
         dist[c["cat"]] = dist.get(c["cat"], 0) + 1
